@@ -270,9 +270,32 @@ pub fn run(ctx: &mut Ctx) {
         let mut r = Rng::for_case(ctx.seed, "C04-R", i);
         let a = rand_version(&mut r, false);
         let mut b = a.clone();
-        match r.below(5) {
+        match r.below(7) {
             0 => b = rand_version(&mut r, false),
             1 => b.pre = rand_ids(&mut r, 4),
+            5 | 6 => {
+                // long identifier lists that agree on a long prefix
+                let n = 5 + r.below(6);
+                let base: Vec<String> = (0..n).map(|_| r.pick(ID_ATOMS).to_string()).collect();
+                let mut a2 = a.clone();
+                a2.pre = base.clone();
+                b.pre = base;
+                match r.below(3) {
+                    0 => {
+                        let k = r.below(b.pre.len());
+                        b.pre[k] = r.pick(ID_ATOMS).to_string();
+                    }
+                    1 => {
+                        b.pre.push(r.pick(ID_ATOMS).to_string());
+                    }
+                    _ => {
+                        let last = b.pre.len() - 1;
+                        b.pre[last] = r.pick(ID_ATOMS).to_string();
+                    }
+                }
+                judge_pair(ctx, &a2, &b, &a2.to_crate(), &b.to_crate(), "fields");
+                continue;
+            }
             2 => b.build = rand_ids(&mut r, 2),
             3 => {
                 if let Some(l) = b.pre.last_mut() {
